@@ -32,7 +32,8 @@ STR_METHODS = {'startswith', 'endswith', 'replace', 'join', 'lower', 'upper', 's
 BUILTINS = {'len': len, 'tuple': tuple, 'list': list, 'dict': dict, 'max': max, 'min': min, 'sorted': sorted,
             'str': str, 'int': int, 'float': float, 'range': range, 'zip': zip, 'set': set, 'frozenset': frozenset,
             'enumerate': enumerate, 'sum': sum, 'abs': abs, 'bool': bool, 'repr': repr, 'any': any, 'all': all,
-            'reversed': reversed, 'round': round, 'True': True, 'False': False, 'None': None}
+            'reversed': reversed, 'round': round, 'True': True, 'False': False, 'None': None, 'isinstance': isinstance,
+            'divmod': divmod, 'bytes': bytes}
 BINOPS = {ast.Add: operator.add, ast.Sub: operator.sub, ast.Mult: operator.mul, ast.Div: operator.truediv,
           ast.Mod: operator.mod, ast.FloorDiv: operator.floordiv, ast.Pow: operator.pow}
 CMPOPS = {ast.Eq: operator.eq, ast.NotEq: operator.ne, ast.Lt: operator.lt, ast.LtE: operator.le,
